@@ -109,6 +109,10 @@ def build(form, edges, counts, level, order=None, keep=None):
         amp = _amps(edges)
         df = pd.DataFrame({"from": [-amp[i] for i in order], "to": [amp[i] for i in order],
                            "cycles": [float(counts[i]) for i in order]})
+        if form == "collective-with-idle-member":
+            # one more member in front: cycles with from == to (amplitude exactly 0), half as many as all others together
+            idle = pd.DataFrame({"from": [7.0], "to": [7.0], "cycles": [0.5 * float(sum(counts))]})
+            df = pd.concat([idle, df], ignore_index=True)
         lc = df.load_collective
     if level != 1.0:
         lc = lc.scale(level)
@@ -246,6 +250,25 @@ def check_case(case):
                         ev += 1
                         if not _close(dsum, 1.0, RT_ONE):
                             V(_gkey(name, k2name, below, top_empty), gassner_cycles=N, damage_sum=dsum)
+                        elif k2 is None:
+                            # the members listed in another order are the same collective: same Gassner cycles
+                            for perm in (tuple(reversed(range(n))), tuple(range(1, n)) + (0,)):
+                                Np = float(np.asarray(getattr(curve_series(curve, k2), acc).gassner_cycles(build(form, edges, counts, level, order=perm))))
+                                ev += 1
+                                if not _close(Np, N, RT_ONE):
+                                    V("C11/gassner-%s/member-order" % name, order=list(perm), gassner_cycles_listed_ascending=N, gassner_cycles_permuted=Np)
+                                    break
+                            # ... and with an additional member of amplitude exactly zero (cycles with from == to): it adds
+                            # cycles but no damage; after the predicted number of cycles the damage sum is one again
+                            if form == "collective":
+                                f0 = "collective-with-idle-member"
+                                N0 = float(np.asarray(getattr(curve_series(curve, k2), acc).gassner_cycles(build(f0, edges, counts, level))))
+                                total0 = 1.5 * sum(counts)
+                                d0 = damage(curve, rule, build(f0, edges, [c * (N0 / total0) for c in counts], level))
+                                ev += 2
+                                if not (math.isfinite(N0) and _close(math.fsum(d0), 1.0, RT_ONE)):
+                                    V("C11/gassner-%s/member-of-amplitude-zero" % name, gassner_cycles=N0, damage_sum=math.fsum(d0),
+                                      gassner_cycles_without_the_idle_member=N)
                     # the same accessor object used again on another collective with the same cycle counts but other
                     # (not proportional) class limits must answer like a fresh one: nothing may stick to the object
                     other = "irregular" if case["edges"] != "irregular" else "regular"
